@@ -204,6 +204,7 @@ def check(case, rec):
         mjw.kinematics(m, d)
         mjw.com_pos(m, d)
         mjw.collision(m, d)
+        mjw.make_constraint(m, d)  # keep contacts and constraint rows consistent (a lone collision() leaves stale rows behind)
       run("collision", col)
     elif name == "sensor":
       def sen():
